@@ -198,6 +198,7 @@ func (s *scanner) stateExpFound(c byte) bool {
 		if s.expBegin == 0 {
 			s.expBegin = s.index
 		}
+		s.stateFn = s.stateExpNumberFound
 	default:
 		return false
 	}
